@@ -667,6 +667,11 @@ impl<'a> Read<'a> for StrRead<'a> {
         scratch: &'s mut Vec<u8>,
     ) -> Result<Reference<'a, 's, str>> {
         self.delegate.parse_r6rs_str_bytes(scratch, |_, bytes| {
+            #[cfg(feature = "verif-hooks")]
+            assert!(
+                str::from_utf8(bytes).is_ok(),
+                "verif-hooks: ill-formed UTF-8 reaches from_utf8_unchecked (parse_r6rs_str)"
+            );
             // The input is assumed to be valid UTF-8 and the \x-escapes are
             // checked along the way, so don't need to check here.
             Ok(unsafe { str::from_utf8_unchecked(bytes) })
@@ -685,6 +690,11 @@ impl<'a> Read<'a> for StrRead<'a> {
 
     fn parse_symbol<'s>(&'s mut self, scratch: &'s mut Vec<u8>) -> Result<Reference<'a, 's, str>> {
         self.delegate.parse_symbol_bytes(scratch, |_, bytes| {
+            #[cfg(feature = "verif-hooks")]
+            assert!(
+                str::from_utf8(bytes).is_ok(),
+                "verif-hooks: ill-formed UTF-8 reaches from_utf8_unchecked (parse_symbol)"
+            );
             // The input is assumed to be valid UTF-8 and the \u-escapes are
             // checked along the way, so don't need to check here.
             Ok(unsafe { str::from_utf8_unchecked(bytes) })
